@@ -203,18 +203,37 @@ func runItem(prop, tier string, idx int, deadline time.Time, maxExecs int) *Item
 	it := items[idx]
 	start := time.Now()
 	r := &ItemResult{Index: idx, Name: it.Name, Bound: it.Bound}
-	if it.Seq != nil {
-		sr := it.Seq()
+	if it.Chunk != nil {
+		env := scen.RunChunkInstrumented(*it.Chunk)
 		r.Seq = true
-		r.Execs, r.Nontrivial, r.Distinct = sr.Cases, sr.Nontrivial, sr.Nontrivial
-		r.Steps, r.Points = sr.Transitions, sr.States
-		r.Pristine = sr.Pristine
-		r.Samples = sr.Samples
-		if !sr.Exhaustive {
-			r.Capped = "sequential enumeration stopped early"
+		r.Execs, r.Nontrivial, r.Distinct = env.Cases, env.Nontrivial, env.Nontrivial
+		r.Steps, r.Points = env.Trans, env.States
+		if r.Points == 0 {
+			r.Points, r.Steps = env.Cases, env.Cases
 		}
-		for _, f := range sr.Found {
+		r.Samples = env.Samples
+		for _, f := range env.Found {
 			r.Found = append(r.Found, FoundRec{Item: idx, Name: it.Name, Verdict: "ORACLE", Key: f.Key, Detail: f.Detail, Input: f.Input, Events: it.Tags, Repro: 5})
+			if strings.HasPrefix(f.Key, "HARNESS") {
+				r.Err = f.Key + ": " + f.Detail
+			}
+		}
+		// differential against the unmodified package
+		if pb := os.Getenv("MC_PRISTINE"); pb != "" {
+			cmd := exec.Command(pb, "chunk", prop, tier, strconv.Itoa(chunkIndex(prop, tier, it.Name)))
+			cmd.Stdin = strings.NewReader(strings.Join(env.Skipped, "\n") + "\n")
+			out, err := cmd.Output()
+			var pr struct {
+				Digest string `json:"digest"`
+				Cases  int64  `json:"cases"`
+			}
+			if err != nil || json.Unmarshal(out, &pr) != nil {
+				r.Err = fmt.Sprintf("pristine run of %s failed: %v", it.Name, err)
+			} else if pr.Digest != env.Digest() {
+				r.Err = fmt.Sprintf("instrumented and unmodified package disagree on chunk %s (%d vs %d cases): the rewrite changed behaviour", it.Name, env.Cases-int64(len(env.Skipped)), pr.Cases)
+			} else {
+				r.Pristine = pr.Cases
+			}
 		}
 		r.WallMs = time.Since(start).Milliseconds()
 		return r
@@ -637,12 +656,16 @@ func cmdReplay(args []string) {
 		fmt.Fprintf(os.Stderr, "replay: program %q is not generated by the current family\n", rec.Name)
 		os.Exit(2)
 	}
-	if it.Seq != nil {
-		sr := it.Seq()
-		for _, f := range sr.Found {
-			fmt.Printf("%s: %s\n  input: %s\n", f.Key, f.Detail, f.Input)
+	if it.Chunk != nil {
+		env := scen.RunChunkInstrumented(*it.Chunk)
+		hit := false
+		for _, f := range env.Found {
+			if f.Input == rec.Input || rec.Input == "" {
+				fmt.Printf("%s: %s\n  input: %s\n", f.Key, f.Detail, f.Input)
+				hit = true
+			}
 		}
-		if len(sr.Found) > 0 {
+		if hit {
 			fmt.Printf("VIOLATION property=%s replay=%s\n", rec.Property, args[0])
 			os.Exit(1)
 		}
@@ -696,4 +719,13 @@ func cmdRun(args []string) {
 	for _, bl := range o.Res.Blocked {
 		fmt.Printf("  not exited: T%d %s %s in %s %v\n", bl.ID, bl.Role, bl.Op, bl.Func, bl.Chans)
 	}
+}
+
+func chunkIndex(prop, tier, name string) int {
+	for i, c := range scen.SeqFamilies[prop](tier) {
+		if c.Name == name {
+			return i
+		}
+	}
+	return -1
 }
